@@ -255,19 +255,87 @@ Definition lin_op (s : cstate) (l : label) : option (tid * lru_op PK V) :=
   | _ => None
   end.
 
-(* the linearisation labels of a trace, in order *)
-Fixpoint lin_ops (s : cstate) (tr : list label) : list (tid * lru_op PK V) :=
+Definition label_tid (l : label) : tid :=
+  match l with
+  | LInvoke t _ | LSecA t | LCreateRet t _ | LSecB t | LWake t
+  | LSecRemove t | LSecClear t | LReturn t => t
+  end.
+
+(** the history of a run: every label of an accepted trace, attributed to its
+    thread and classified as the invocation of a call, its linearisation point
+    (with the sequential operation it performs and the result it leaves for the
+    thread to return), the return of a call (with the returned result), or an
+    internal step *)
+Inductive tag : Type :=
+| TInv (o : cop)
+| TLin (o : lru_op PK V) (r : option (lru_res V))
+| TRet (r : lru_res V)
+| TInt.
+
+Definition tag_of (s : cstate) (l : label) (s' : cstate) : tag :=
+  match l with
+  | LInvoke _ o => TInv o
+  | LReturn t => match cs_pc s t with PDone r => TRet r | _ => TInt end
+  | _ =>
+      match lin_op s l with
+      | Some (t, o) => TLin o (match cs_pc s' t with PDone r => Some r | _ => None end)
+      | None => TInt
+      end
+  end.
+
+Fixpoint tags (s : cstate) (tr : list label) : list (tid * tag) :=
   match tr with
   | [] => []
   | l :: t =>
       match step s l with
       | None => []
-      | Some (s', _) =>
-          match lin_op s l with
-          | Some x => x :: lin_ops s' t
-          | None => lin_ops s' t
-          end
+      | Some (s', _) => (label_tid l, tag_of s l s') :: tags s' t
       end
+  end.
+
+(* the linearisation points of a history, in order: thread, operation, result *)
+Fixpoint lin_seq (tg : list (tid * tag)) : list (tid * lru_op PK V * lru_res V) :=
+  match tg with
+  | [] => []
+  | (t, TLin o (Some r)) :: rest => (t, o, r) :: lin_seq rest
+  | _ :: rest => lin_seq rest
+  end.
+
+(* one thread's part of a history *)
+Definition thread_tags (t : tid) (tg : list (tid * tag)) : list tag :=
+  map snd (filter (fun x => Nat.eqb (fst x) t) tg).
+
+(* the shape of one thread's history: calls follow each other; each is an
+   invocation, internal steps, exactly one linearisation point, and the return
+   of the result left at that point (the last call may be incomplete) *)
+Inductive phase : Type := PhOut | PhIn | PhLin (r : lru_res V).
+
+Fixpoint shape (ph : phase) (l : list tag) : Prop :=
+  match l with
+  | [] => True
+  | tg :: rest =>
+      match ph, tg with
+      | PhOut, TInv _ => shape PhIn rest
+      | PhIn, TInt => shape PhIn rest
+      | PhIn, TLin _ (Some x) => shape (PhLin x) rest
+      | PhLin x, TRet y => x = y /\ shape PhOut rest
+      | _, _ => False
+      end
+  end.
+
+Definition phase_of (p : pc) : phase :=
+  match p with
+  | PIdle => PhOut
+  | PDone r => PhLin r
+  | _ => PhIn
+  end.
+
+(* the delete callbacks among the events of a run *)
+Fixpoint cdels (e : list cev) : list (PK * V) :=
+  match e with
+  | [] => []
+  | CDel pk v :: t => (pk, v) :: cdels t
+  | _ :: t => cdels t
   end.
 
 (* values created successfully whose insertion is still to come *)
@@ -292,3 +360,5 @@ Arguments pc : clear implicits.
 Arguments label : clear implicits.
 Arguments cev : clear implicits.
 Arguments cstate : clear implicits.
+Arguments tag : clear implicits.
+Arguments phase : clear implicits.
